@@ -36,6 +36,12 @@ theorem loop_else_and_nested_decorators_rejected :
       disp tables fuel .FunctionDef .f_decorator_list = .rejected := by
   decide +kernel
 
+/-- No statement visitor of the CFG builder returns without recording a value-bearing statement for a
+    whole syntactic class of values: `Assign/AugAssign/AnnAssign/Return/FunctionDef/With` are always
+    appended to a basic block, `Expr` is dropped only when its built value is a `%tmp` variable. -/
+theorem value_statements_recorded : ∀ k ∈ valueStatements, recordedOK records k = true := by
+  decide +kernel
+
 /-! Non-vacuity / sensitivity: the check distinguishes tables.  Dropping the guard rows of the D2 fix
     (the tree before the fix) or the keyword guard of `ExprSynthesizer.visit_Call` makes `Covered`
     false for exactly those fields; and the dispositions are not all the same. -/
@@ -43,6 +49,8 @@ example : ¬ Covered { tables with reads := tables.reads.filter (· ≠ (.CFGBui
     .While .f_orelse := by decide +kernel
 example : ¬ Covered { tables with reads := tables.reads.filter (· ≠ (.ExprSynthesizer, .Call, .f_keywords, .guard)) }
     .Call .f_keywords := by decide +kernel
+example : recordedOK [(.Expr, .guarded [.isinstance])] .Expr = false ∧ recordedOK [(.Expr, .never)] .Expr = false := by
+  decide +kernel
 example : disp tables fuel .If .f_orelse = .handled ∧ disp tables fuel .Starred .f_value = .handled ∧ disp tables fuel .Try .f_handlers = .nodeRejected ∧
     disp tables fuel .keyword .f_arg = .unreachable ∧ disp tables fuel .arguments .f_vararg = .rejected ∧
     disp tables fuel .arg .f_annotation = .handled := by decide +kernel
